@@ -8,12 +8,12 @@ func init() {
 	const p = pkgKeyper + "."
 
 	// SELECT count(*) FROM tendermint_batch_config
-	reg(p+"CountBatchConfigs", "?", nil, countCol, ordered,
+	reg(p+"CountBatchConfigs", "33d1e4e5f6b5e709", nil, countCol, ordered,
 		countStmt("tendermint_batch_config", nil))
 
 	// SELECT COUNT(*) FROM tendermint_batch_config
 	// WHERE $1 <= activation_block_number AND activation_block_number < $2
-	reg(p+"CountBatchConfigsInBlockRange", "?", params(i8, i8), countCol, ordered,
+	reg(p+"CountBatchConfigsInBlockRange", "d7017214b0fe1f81", params(i8, i8), countCol, ordered,
 		countStmt("tendermint_batch_config", func(r Row, a []any) bool {
 			return sqlLe(a[0], r["activation_block_number"]) && sqlLt(r["activation_block_number"], a[1])
 		}))
@@ -21,58 +21,58 @@ func init() {
 	// SELECT COUNT(*) FROM tendermint_batch_config
 	// WHERE ($1::TEXT[]) && keypers AND $2 <= activation_block_number AND activation_block_number < $3
 	// (&& is array overlap: some element in common; NULL array -> unknown -> row excluded)
-	reg(p+"CountBatchConfigsInBlockRangeWithKeyper", "?", params(txtArr, i8, i8), countCol, ordered,
+	reg(p+"CountBatchConfigsInBlockRangeWithKeyper", "2435d9ac1e914465", params(txtArr, i8, i8), countCol, ordered,
 		countStmt("tendermint_batch_config", func(r Row, a []any) bool {
 			return textArrayOverlap(a[0], r["keypers"]) == true &&
 				sqlLe(a[1], r["activation_block_number"]) && sqlLt(r["activation_block_number"], a[2])
 		}))
 
 	// SELECT count(*) FROM decryption_key_share WHERE eon = $1 AND epoch_id = $2
-	reg(p+"CountDecryptionKeyShares", "?", params(i8, bya), countCol, ordered,
+	reg(p+"CountDecryptionKeyShares", "838004385ea7d949", params(i8, bya), countCol, ordered,
 		countStmt("decryption_key_share", func(r Row, a []any) bool {
 			return sqlEq(r["eon"], a[0]) && sqlEq(r["epoch_id"], a[1])
 		}))
 
 	// DELETE FROM poly_evals ev WHERE ev.eon=$1 AND ev.receiver_address=$2
-	reg(p+"DeletePolyEval", "?", params(i8, txt), nil, ordered,
+	reg(p+"DeletePolyEval", "aedb31ce1c354775", params(i8, txt), nil, ordered,
 		deleteStmt("poly_evals", func(r Row, a []any) bool {
 			return sqlEq(r["eon"], a[0]) && sqlEq(r["receiver_address"], a[1])
 		}))
 
 	// DELETE FROM poly_evals ev WHERE ev.eon=$1
-	reg(p+"DeletePolyEvalByEon", "?", params(i8), nil, ordered,
+	reg(p+"DeletePolyEvalByEon", "40269eabf76204bd", params(i8), nil, ordered,
 		deleteStmt("poly_evals", func(r Row, a []any) bool { return sqlEq(r["eon"], a[0]) }))
 
 	// DELETE FROM puredkg WHERE eon=$1
-	reg(p+"DeletePureDKG", "?", params(i8), nil, ordered,
+	reg(p+"DeletePureDKG", "25a8ad489c8d028b", params(i8), nil, ordered,
 		deleteStmt("puredkg", func(r Row, a []any) bool { return sqlEq(r["eon"], a[0]) }))
 
 	// DELETE FROM tendermint_outgoing_messages WHERE id=$1        (id is SERIAL = integer)
-	reg(p+"DeleteShutterMessage", "?", params(i4), nil, ordered,
+	reg(p+"DeleteShutterMessage", "59b09733f5a10d20", params(i4), nil, ordered,
 		deleteStmt("tendermint_outgoing_messages", func(r Row, a []any) bool { return sqlEq(r["id"], a[0]) }))
 
 	// DELETE FROM tendermint_outgoing_messages WHERE description=$1
-	reg(p+"DeleteShutterMessageByDesc", "?", params(txt), nil, ordered,
+	reg(p+"DeleteShutterMessageByDesc", "9b95cf7447d55fbf", params(txt), nil, ordered,
 		deleteStmt("tendermint_outgoing_messages", func(r Row, a []any) bool { return sqlEq(r["description"], a[0]) }))
 
 	// SELECT EXISTS (SELECT 1 FROM decryption_key WHERE eon = $1 AND epoch_id = $2)
-	reg(p+"ExistsDecryptionKey", "?", params(i8, bya), existsCol, ordered,
+	reg(p+"ExistsDecryptionKey", "6ccc329e87aa9d91", params(i8, bya), existsCol, ordered,
 		existsStmt("decryption_key", func(r Row, a []any) bool {
 			return sqlEq(r["eon"], a[0]) && sqlEq(r["epoch_id"], a[1])
 		}))
 
 	// SELECT EXISTS (SELECT 1 FROM decryption_key_share WHERE eon = $1 AND epoch_id = $2 AND keyper_index = $3)
-	reg(p+"ExistsDecryptionKeyShare", "?", params(i8, bya, i8), existsCol, ordered,
+	reg(p+"ExistsDecryptionKeyShare", "677cb0a8ac2b1ea1", params(i8, bya, i8), existsCol, ordered,
 		existsStmt("decryption_key_share", func(r Row, a []any) bool {
 			return sqlEq(r["eon"], a[0]) && sqlEq(r["epoch_id"], a[1]) && sqlEq(r["keyper_index"], a[2])
 		}))
 
 	// SELECT eon, success, error, pure_result FROM dkg_result ORDER BY eon ASC
-	reg(p+"GetAllDKGResults", "?", nil, starCols("dkg_result"), ordered,
+	reg(p+"GetAllDKGResults", "185a02cfeade98d7", nil, starCols("dkg_result"), ordered,
 		selectStmt("dkg_result", allCols("dkg_result"), nil, []sortKey{asc("eon")}, -1))
 
 	// SELECT eon, height, activation_block_number, keyper_config_index FROM eons ORDER BY eon
-	reg(p+"GetAllEons", "?", nil, starCols("eons"), ordered,
+	reg(p+"GetAllEons", "dc6bdeeacac6995a", nil, starCols("eons"), ordered,
 		selectStmt("eons", allCols("eons"), nil, []sortKey{asc("eon")}, -1))
 
 	// WITH t1 AS (DELETE FROM outgoing_eon_keys RETURNING eon_public_key, eon)
@@ -83,7 +83,7 @@ func init() {
 	//
 	// All rows of outgoing_eon_keys are deleted, including those that find no
 	// join partner (and are therefore not returned).  No ORDER BY.
-	reg(p+"GetAndDeleteEonPublicKeys", "?", nil,
+	reg(p+"GetAndDeleteEonPublicKeys", "da2a8bdd0e0a225d", nil,
 		concatCols(colsOf("outgoing_eon_keys", "eon_public_key", "eon"), colsOf("eons", "activation_block_number"),
 			colsOf("tendermint_batch_config", "keypers", "keyper_config_index")), unordered,
 		func(tx *Store, a []any) ([][]any, string, error) {
@@ -103,16 +103,16 @@ func init() {
 
 	// SELECT keyper_config_index, height, keypers, threshold, started, activation_block_number
 	// FROM tendermint_batch_config WHERE keyper_config_index = $1          (integer column)
-	reg(p+"GetBatchConfig", "?", params(i4), starCols("tendermint_batch_config"), ordered,
+	reg(p+"GetBatchConfig", "1667ed1b2b4e32e7", params(i4), starCols("tendermint_batch_config"), ordered,
 		selectStmt("tendermint_batch_config", allCols("tendermint_batch_config"),
 			func(r Row, a []any) bool { return sqlEq(r["keyper_config_index"], a[0]) }, nil, -1))
 
 	// SELECT ... FROM tendermint_batch_config ORDER BY keyper_config_index
-	reg(p+"GetBatchConfigs", "?", nil, starCols("tendermint_batch_config"), ordered,
+	reg(p+"GetBatchConfigs", "570dca04336ce758", nil, starCols("tendermint_batch_config"), ordered,
 		selectStmt("tendermint_batch_config", allCols("tendermint_batch_config"), nil, []sortKey{asc("keyper_config_index")}, -1))
 
 	// SELECT eon, success, error, pure_result FROM dkg_result WHERE eon = $1
-	reg(p+"GetDKGResult", "?", params(i8), starCols("dkg_result"), ordered,
+	reg(p+"GetDKGResult", "c1343d9527af9230", params(i8), starCols("dkg_result"), ordered,
 		selectStmt("dkg_result", allCols("dkg_result"), func(r Row, a []any) bool { return sqlEq(r["eon"], a[0]) }, nil, -1))
 
 	// SELECT eon, success, error, pure_result FROM dkg_result
@@ -120,7 +120,7 @@ func init() {
 	//              ORDER BY activation_block_number DESC, height DESC LIMIT 1)
 	// The scalar subquery is NULL when eons has no such row; eon = NULL keeps no row.
 	// (activation_block_number, height) is not unique, so among ties the scan order decides.
-	reg(p+"GetDKGResultForBlockNumber", "?", params(i8), starCols("dkg_result"), unordered,
+	reg(p+"GetDKGResultForBlockNumber", "a31906552873b76e", params(i8), starCols("dkg_result"), unordered,
 		func(tx *Store, a []any) ([][]any, string, error) {
 			sub := orderRows(tx.where("eons", func(r Row) bool { return sqlLe(r["activation_block_number"], a[0]) }),
 				desc("activation_block_number"), desc("height"))
@@ -135,7 +135,7 @@ func init() {
 	// SELECT eon, success, error, pure_result FROM dkg_result
 	// WHERE eon = (SELECT max(eon) FROM eons WHERE keyper_config_index = $1)
 	// max over no rows is NULL; eon = NULL keeps no row.
-	reg(p+"GetDKGResultForKeyperConfigIndex", "?", params(i8), starCols("dkg_result"), ordered,
+	reg(p+"GetDKGResultForKeyperConfigIndex", "5d9a0ce7b0b93334", params(i8), starCols("dkg_result"), ordered,
 		func(tx *Store, a []any) ([][]any, string, error) {
 			m := tx.maxOf("eons", "eon", func(r Row) bool { return sqlEq(r["keyper_config_index"], a[0]) })
 			rows := tx.where("dkg_result", func(r Row) bool { return sqlEq(r["eon"], m) })
@@ -143,14 +143,14 @@ func init() {
 		})
 
 	// SELECT eon, epoch_id, decryption_key FROM decryption_key WHERE eon = $1 AND epoch_id = $2
-	reg(p+"GetDecryptionKey", "?", params(i8, bya), starCols("decryption_key"), ordered,
+	reg(p+"GetDecryptionKey", "1662948b82280a39", params(i8, bya), starCols("decryption_key"), ordered,
 		selectStmt("decryption_key", allCols("decryption_key"), func(r Row, a []any) bool {
 			return sqlEq(r["eon"], a[0]) && sqlEq(r["epoch_id"], a[1])
 		}, nil, -1))
 
 	// SELECT eon, epoch_id, keyper_index, decryption_key_share FROM decryption_key_share
 	// WHERE eon = $1 AND epoch_id = $2 AND keyper_index = $3
-	reg(p+"GetDecryptionKeyShare", "?", params(i8, bya, i8), starCols("decryption_key_share"), ordered,
+	reg(p+"GetDecryptionKeyShare", "8b7deca3bdbd794b", params(i8, bya, i8), starCols("decryption_key_share"), ordered,
 		selectStmt("decryption_key_share", allCols("decryption_key_share"), func(r Row, a []any) bool {
 			return sqlEq(r["eon"], a[0]) && sqlEq(r["epoch_id"], a[1]) && sqlEq(r["keyper_index"], a[2])
 		}, nil, -1))
@@ -158,21 +158,21 @@ func init() {
 	// SELECT DISTINCT ON (address) address, encryption_public_key, height
 	// FROM tendermint_encryption_key ORDER BY address, height DESC
 	// = for every address the row with the greatest height, ordered by address.
-	reg(p+"GetEncryptionKeys", "?", nil, starCols("tendermint_encryption_key"), ordered,
+	reg(p+"GetEncryptionKeys", "a4eae52b3c86915f", nil, starCols("tendermint_encryption_key"), ordered,
 		func(tx *Store, a []any) ([][]any, string, error) {
 			rows := latestEncryptionKeys(tx)
 			return tx.star("tendermint_encryption_key", rows), tagSelect(len(rows)), nil
 		})
 
 	// SELECT eon, height, activation_block_number, keyper_config_index FROM eons WHERE eon=$1
-	reg(p+"GetEon", "?", params(i8), starCols("eons"), ordered,
+	reg(p+"GetEon", "7034ca503bd676a7", params(i8), starCols("eons"), ordered,
 		selectStmt("eons", allCols("eons"), func(r Row, a []any) bool { return sqlEq(r["eon"], a[0]) }, nil, -1))
 
 	// SELECT eon, height, activation_block_number, keyper_config_index FROM eons
 	// WHERE activation_block_number <= $1
 	// ORDER BY activation_block_number DESC, height DESC LIMIT 1
 	// (the sort key is not unique: among ties the scan order decides)
-	reg(p+"GetEonForBlockNumber", "?", params(i8), starCols("eons"), unordered,
+	reg(p+"GetEonForBlockNumber", "0b649d77a020c192", params(i8), starCols("eons"), unordered,
 		selectStmt("eons", allCols("eons"), func(r Row, a []any) bool { return sqlLe(r["activation_block_number"], a[0]) },
 			[]sortKey{desc("activation_block_number"), desc("height")}, 1))
 
@@ -181,7 +181,7 @@ func init() {
 	// LEFT JOIN eons ON eons.keyper_config_index =  tbc.keyper_config_index
 	// WHERE eons.eon = $2
 	// The WHERE on eons.eon discards the NULL-extended rows, so this is an inner join.
-	reg(p+"GetKeyperStateForEon", "?", params(txtArr, i8), []ResultCol{{"is_keyper", OIDBool}}, unordered,
+	reg(p+"GetKeyperStateForEon", "d3008e7939eb11f9", params(txtArr, i8), []ResultCol{{"is_keyper", OIDBool}}, unordered,
 		func(tx *Store, a []any) ([][]any, string, error) {
 			var out [][]any
 			for _, c := range tx.all("tendermint_batch_config") {
@@ -196,27 +196,27 @@ func init() {
 		})
 
 	// SELECT keyper_config_index FROM last_batch_config_sent LIMIT 1
-	reg(p+"GetLastBatchConfigProcessed", "?", nil, colsOf("last_batch_config_sent", "keyper_config_index"), unordered,
+	reg(p+"GetLastBatchConfigProcessed", "4f97af480deaf9f5", nil, colsOf("last_batch_config_sent", "keyper_config_index"), unordered,
 		selectStmt("last_batch_config_sent", []string{"keyper_config_index"}, nil, nil, 1))
 
 	// SELECT block_number FROM last_block_seen LIMIT 1
-	reg(p+"GetLastBlockSeen", "?", nil, colsOf("last_block_seen", "block_number"), unordered,
+	reg(p+"GetLastBlockSeen", "bc30456de4897eb2", nil, colsOf("last_block_seen", "block_number"), unordered,
 		selectStmt("last_block_seen", []string{"block_number"}, nil, nil, 1))
 
 	// SELECT last_committed_height FROM tendermint_sync_meta
 	// ORDER BY current_block DESC, last_committed_height DESC LIMIT 1      (sort key = primary key)
-	reg(p+"GetLastCommittedHeight", "?", nil, colsOf("tendermint_sync_meta", "last_committed_height"), ordered,
+	reg(p+"GetLastCommittedHeight", "bd57751fa59ce1ad", nil, colsOf("tendermint_sync_meta", "last_committed_height"), ordered,
 		selectStmt("tendermint_sync_meta", []string{"last_committed_height"}, nil,
 			[]sortKey{desc("current_block"), desc("last_committed_height")}, 1))
 
 	// SELECT ... FROM tendermint_batch_config ORDER BY keyper_config_index DESC LIMIT 1
-	reg(p+"GetLatestBatchConfig", "?", nil, starCols("tendermint_batch_config"), ordered,
+	reg(p+"GetLatestBatchConfig", "e10176ac76a8f848", nil, starCols("tendermint_batch_config"), ordered,
 		selectStmt("tendermint_batch_config", allCols("tendermint_batch_config"), nil, []sortKey{desc("keyper_config_index")}, 1))
 
 	// SELECT max(eons.eon)::INT FROM eons WHERE eons.keyper_config_index = $1
 	// Always exactly one row; NULL if no eon matches; "integer out of range"
 	// (22003) if the maximum does not fit int4.
-	reg(p+"GetLatestEonForKeyperConfig", "?", params(i8), []ResultCol{{"max", OIDInt4}}, ordered,
+	reg(p+"GetLatestEonForKeyperConfig", "9d72da234a4782c4", params(i8), []ResultCol{{"max", OIDInt4}}, ordered,
 		func(tx *Store, a []any) ([][]any, string, error) {
 			m := tx.maxOf("eons", "eon", func(r Row) bool { return sqlEq(r["keyper_config_index"], a[0]) })
 			if m != nil {
@@ -229,54 +229,54 @@ func init() {
 
 	// SELECT eon, height, activation_block_number, keyper_config_index FROM eons
 	// WHERE keyper_config_index = $1 ORDER BY eon DESC LIMIT 1
-	reg(p+"GetLatestStartedEonByKeyperConfigIndex", "?", params(i8), starCols("eons"), ordered,
+	reg(p+"GetLatestStartedEonByKeyperConfigIndex", "c1b138efb3c372cc", params(i8), starCols("eons"), ordered,
 		selectStmt("eons", allCols("eons"), func(r Row, a []any) bool { return sqlEq(r["keyper_config_index"], a[0]) },
 			[]sortKey{desc("eon")}, 1))
 
 	// SELECT id, description, msg from tendermint_outgoing_messages ORDER BY id LIMIT 1
-	reg(p+"GetNextShutterMessage", "?", nil, starCols("tendermint_outgoing_messages"), ordered,
+	reg(p+"GetNextShutterMessage", "5bda564c6e9b6575", nil, starCols("tendermint_outgoing_messages"), ordered,
 		selectStmt("tendermint_outgoing_messages", allCols("tendermint_outgoing_messages"), nil, []sortKey{asc("id")}, 1))
 
 	// INSERT INTO tendermint_batch_config (keyper_config_index, height, keypers, threshold, started, activation_block_number)
 	// VALUES ($1, $2, $3, $4, $5, $6)
-	reg(p+"InsertBatchConfig", "?", params(i4, i8, txtArr, i4, bl, i8), nil, ordered,
+	reg(p+"InsertBatchConfig", "8c67a1ec5ceea8ee", params(i4, i8, txtArr, i4, bl, i8), nil, ordered,
 		insertStmt("tendermint_batch_config",
 			[]string{"keyper_config_index", "height", "keypers", "threshold", "started", "activation_block_number"}, nil))
 
 	// INSERT INTO dkg_result (eon,success,error,pure_result) VALUES ($1,$2,$3,$4)
-	reg(p+"InsertDKGResult", "?", params(i8, bl, txt, bya), nil, ordered,
+	reg(p+"InsertDKGResult", "1560f8d4c81ea57e", params(i8, bl, txt, bya), nil, ordered,
 		insertStmt("dkg_result", []string{"eon", "success", "error", "pure_result"}, nil))
 
 	// INSERT INTO decryption_key (eon, epoch_id, decryption_key) VALUES ($1, $2, $3) ON CONFLICT DO NOTHING
-	reg(p+"InsertDecryptionKey", "?", params(i8, bya, bya), nil, ordered,
+	reg(p+"InsertDecryptionKey", "be34bf6cde53e82f", params(i8, bya, bya), nil, ordered,
 		insertStmt("decryption_key", []string{"eon", "epoch_id", "decryption_key"}, always(doNothing())))
 
 	// INSERT INTO decryption_key_share (eon, epoch_id, keyper_index, decryption_key_share)
 	// VALUES ($1, $2, $3, $4) ON CONFLICT DO NOTHING
-	reg(p+"InsertDecryptionKeyShare", "?", params(i8, bya, i8, bya), nil, ordered,
+	reg(p+"InsertDecryptionKeyShare", "1a60cce4ebecc5cc", params(i8, bya, i8, bya), nil, ordered,
 		insertStmt("decryption_key_share", []string{"eon", "epoch_id", "keyper_index", "decryption_key_share"}, always(doNothing())))
 
 	// INSERT INTO tendermint_encryption_key (address, encryption_public_key, height) VALUES ($1, $2, $3)
 	// ON CONFLICT (address, height) DO UPDATE SET encryption_public_key = EXCLUDED.encryption_public_key
-	reg(p+"InsertEncryptionKey", "?", params(txt, bya, i8), nil, ordered,
+	reg(p+"InsertEncryptionKey", "d174717d6aff9f2c", params(txt, bya, i8), nil, ordered,
 		insertStmt("tendermint_encryption_key", []string{"address", "encryption_public_key", "height"},
 			setExcluded([]string{"address", "height"}, "encryption_public_key")))
 
 	// INSERT INTO eons (eon, height, activation_block_number, keyper_config_index) VALUES ($1, $2, $3, $4)
-	reg(p+"InsertEon", "?", params(i8, i8, i8, i8), nil, ordered,
+	reg(p+"InsertEon", "83abaf1d61ebdc19", params(i8, i8, i8, i8), nil, ordered,
 		insertStmt("eons", []string{"eon", "height", "activation_block_number", "keyper_config_index"}, nil))
 
 	// INSERT INTO outgoing_eon_keys (eon_public_key, eon) VALUES ($1, $2)
-	reg(p+"InsertEonPublicKey", "?", params(bya, i8), nil, ordered,
+	reg(p+"InsertEonPublicKey", "ab1a895566729a64", params(bya, i8), nil, ordered,
 		insertStmt("outgoing_eon_keys", []string{"eon_public_key", "eon"}, nil))
 
 	// INSERT INTO poly_evals (eon, receiver_address, eval) VALUES ($1, $2, $3)
-	reg(p+"InsertPolyEval", "?", params(i8, txt, bya), nil, ordered,
+	reg(p+"InsertPolyEval", "c493e04cfc66a6e7", params(i8, txt, bya), nil, ordered,
 		insertStmt("poly_evals", []string{"eon", "receiver_address", "eval"}, nil))
 
 	// INSERT INTO puredkg (eon, puredkg) VALUES ($1, $2)
 	// ON CONFLICT (eon) DO UPDATE SET puredkg=EXCLUDED.puredkg
-	reg(p+"InsertPureDKG", "?", params(i8, bya), nil, ordered,
+	reg(p+"InsertPureDKG", "5f4ccf3220d9992e", params(i8, bya), nil, ordered,
 		insertStmt("puredkg", []string{"eon", "puredkg"}, setExcluded([]string{"eon"}, "puredkg")))
 
 	// WITH latest_keys AS (
@@ -288,7 +288,7 @@ func init() {
 	// INNER JOIN eons eon ON ev.eon = eon.eon
 	// ORDER BY ev.eon
 	// Rows with the same ev.eon (different receivers) come in scan order.
-	reg(p+"PolyEvalsWithEncryptionKeys", "?", nil,
+	reg(p+"PolyEvalsWithEncryptionKeys", "d3062dd74d0e5d77", nil,
 		concatCols(colsOf("poly_evals", "eon", "receiver_address", "eval"),
 			colsOf("tendermint_encryption_key", "encryption_public_key"), colsOf("eons", "height")), unordered,
 		func(tx *Store, a []any) ([][]any, string, error) {
@@ -308,7 +308,7 @@ func init() {
 		})
 
 	// INSERT INTO tendermint_outgoing_messages (description, msg) VALUES ($1, $2) RETURNING id
-	reg(p+"ScheduleSerializedShutterMessage", "?", params(txt, bya), colsOf("tendermint_outgoing_messages", "id"), ordered,
+	reg(p+"ScheduleSerializedShutterMessage", "acc406f37653042b", params(txt, bya), colsOf("tendermint_outgoing_messages", "id"), ordered,
 		func(tx *Store, a []any) ([][]any, string, error) {
 			r, _, err := tx.insert("tendermint_outgoing_messages", Row{"description": a[0], "msg": a[1]}, conflict{})
 			if err != nil {
@@ -319,17 +319,17 @@ func init() {
 
 	// SELECT eon, epoch_id, keyper_index, decryption_key_share FROM decryption_key_share
 	// WHERE eon = $1 AND epoch_id = $2                               (no ORDER BY)
-	reg(p+"SelectDecryptionKeyShares", "?", params(i8, bya), starCols("decryption_key_share"), unordered,
+	reg(p+"SelectDecryptionKeyShares", "007665558507fdfa", params(i8, bya), starCols("decryption_key_share"), unordered,
 		selectStmt("decryption_key_share", allCols("decryption_key_share"), func(r Row, a []any) bool {
 			return sqlEq(r["eon"], a[0]) && sqlEq(r["epoch_id"], a[1])
 		}, nil, -1))
 
 	// SELECT eon, puredkg FROM puredkg                               (no ORDER BY)
-	reg(p+"SelectPureDKG", "?", nil, starCols("puredkg"), unordered,
+	reg(p+"SelectPureDKG", "cb9e743ddb5d0e02", nil, starCols("puredkg"), unordered,
 		selectStmt("puredkg", allCols("puredkg"), nil, nil, -1))
 
 	// UPDATE tendermint_batch_config SET started = TRUE WHERE keyper_config_index = $1
-	reg(p+"SetBatchConfigStarted", "?", params(i4), nil, ordered,
+	reg(p+"SetBatchConfigStarted", "921d522eca705d90", params(i4), nil, ordered,
 		func(tx *Store, a []any) ([][]any, string, error) {
 			u, err := tx.updateWhere("tendermint_batch_config",
 				func(r Row) bool { return sqlEq(r["keyper_config_index"], a[0]) },
@@ -339,24 +339,24 @@ func init() {
 
 	// INSERT INTO last_batch_config_sent (keyper_config_index) VALUES ($1)
 	// ON CONFLICT (enforce_one_row) DO UPDATE SET keyper_config_index = $1
-	reg(p+"SetLastBatchConfigProcessed", "?", params(i8), nil, ordered,
+	reg(p+"SetLastBatchConfigProcessed", "8e5e3cf66538c7a2", params(i8), nil, ordered,
 		insertStmt("last_batch_config_sent", []string{"keyper_config_index"},
 			setParams([]string{"enforce_one_row"}, map[string]int{"keyper_config_index": 1})))
 
 	// INSERT INTO last_block_seen (block_number) VALUES ($1)
 	// ON CONFLICT (enforce_one_row) DO UPDATE SET block_number = $1
-	reg(p+"SetLastBlockSeen", "?", params(i8), nil, ordered,
+	reg(p+"SetLastBlockSeen", "8948ff0208607ac1", params(i8), nil, ordered,
 		insertStmt("last_block_seen", []string{"block_number"},
 			setParams([]string{"enforce_one_row"}, map[string]int{"block_number": 1})))
 
 	// SELECT current_block, last_committed_height, sync_timestamp FROM tendermint_sync_meta
 	// ORDER BY current_block DESC, last_committed_height DESC LIMIT 1
-	reg(p+"TMGetSyncMeta", "?", nil, starCols("tendermint_sync_meta"), ordered,
+	reg(p+"TMGetSyncMeta", "f6aa2593dd1a8de8", nil, starCols("tendermint_sync_meta"), ordered,
 		selectStmt("tendermint_sync_meta", allCols("tendermint_sync_meta"), nil,
 			[]sortKey{desc("current_block"), desc("last_committed_height")}, 1))
 
 	// INSERT INTO tendermint_sync_meta (current_block, last_committed_height, sync_timestamp) VALUES ($1, $2, $3)
-	reg(p+"TMSetSyncMeta", "?", params(i8, i8, tstamp), nil, ordered,
+	reg(p+"TMSetSyncMeta", "41105e99b4a8771b", params(i8, i8, tstamp), nil, ordered,
 		insertStmt("tendermint_sync_meta", []string{"current_block", "last_committed_height", "sync_timestamp"}, nil))
 }
 
